@@ -8,9 +8,44 @@ use sameold::{Message, MessageHeader};
 use verif_harness::canon::*;
 use verif_harness::hexio::*;
 
+/// the 32 bits of a float, every NaN mapped to the one canonical quiet NaN (the model has a single NaN)
+fn fbits(v: f32) -> u32 {
+    if v.is_nan() {
+        0x7fc0_0000
+    } else {
+        v.to_bits()
+    }
+}
+
 fn handle(line: &str) -> String {
     let toks: Vec<&str> = line.split(' ').filter(|s| !s.is_empty()).collect();
     match toks.as_slice() {
+        // DCBlocker::new(len), then filter() on each sample (decimal IEEE-754 bit patterns, ','-separated): the bits of every output
+        ["dcbrun", len, xs] => {
+            let mut d = verif::DCBlocker::new(len.parse().unwrap());
+            let outs: Vec<String> = xs
+                .split(',')
+                .filter(|t| !t.is_empty())
+                .map(|t| fbits(d.filter(f32::from_bits(t.parse::<u32>().unwrap()))).to_string())
+                .collect();
+            outs.join(",")
+        }
+        // Agc::new(bw, min, max), then operations i<bits> (input), L0 / L1 (lock), R (reset): the bits of every output, then the gain
+        ["agcrun", bw, lo, hi, ops] => {
+            let fb = |t: &str| f32::from_bits(t.parse::<u32>().unwrap());
+            let mut a = verif::Agc::new(fb(bw), fb(lo), fb(hi));
+            let mut outs: Vec<String> = Vec::new();
+            for t in ops.split(',').filter(|t| !t.is_empty()) {
+                match t.as_bytes()[0] {
+                    b'i' => outs.push(fbits(a.input(fb(&t[1..]))).to_string()),
+                    b'L' => a.lock(&t[1..] == "1"),
+                    b'R' => a.reset(),
+                    _ => panic!("bad agc op"),
+                }
+            }
+            outs.push(fbits(a.gain()).to_string());
+            outs.join(",")
+        }
         ["vote2", a, b] => {
             let (v, e) = verif::bit_vote_detect(a.parse().unwrap(), b.parse().unwrap());
             format!("{} {}", v, e)
